@@ -5,7 +5,7 @@
     [canonical_split cap total buffer fee single] is the specification's split (Spec.v). *)
 From V.Lib Require Import Base MachInt.
 From V.Gen Require Import C16Consts.
-From V.C16 Require Import Model Spec Corr Wf ProofsSeries ProofsL125 ProofsSplit ProofsPlan Proofs Bridge.
+From V.C16 Require Import Model Spec Corr Wf ProofsSeries ProofsL125 ProofsSplit ProofsLadder ProofsPlan Proofs ProofsCustom Bridge.
 Local Open Scope Z_scope.
 
 (** ** The denomination set *)
@@ -138,9 +138,78 @@ Theorem C16_legacy_fit_refuted :
   /\ 12345678900 < sumZ witness_notes + 2 ^ 62 * 4.
 Proof. exact legacy_fit_refuted. Qed.
 
+(** ** Caller-chosen bounds: [CanonicalOneTwoFive::new(cap, maxd, 10^i, buffer)]
+
+    Any cap (0 included), any maximum denomination, a power-of-ten minimum (the constructor's
+    documented requirement); all amounts [Zatoshis]; any oracle.  The admissible denominations
+    are [series_of (10^i) maxd]. *)
+
+Theorem C16_series_of_spec : forall mn mx s, mx <= MAX_MONEY ->
+  (In s (series_of mn mx) <-> OneTwoFive s /\ mn <= s <= mx).
+Proof. exact series_of_spec. Qed.
+
+(** the normative series is the instance 0.01 .. 10,000 ZEC *)
+Theorem C16_series_is_series_of : series = series_of MIN CAP.
+Proof. exact series_is_series_of. Qed.
+
+Theorem C16_custom_split_correct : forall (i : nat) maxd total nc cap buffer fee,
+  In i (seq 0 20) -> zatoshi (10 ^ Z.of_nat i) -> zatoshi maxd ->
+  zatoshi total -> zatoshi buffer -> zatoshi fee -> 0 <= cap ->
+  unconstrained_split (mkStrategy cap maxd (10 ^ Z.of_nat i) buffer) total nc fee
+  = Ok (split_of (series_of (10 ^ Z.of_nat i) maxd) (Z.to_nat cap) total buffer fee (nc =? 1)).
+Proof. exact custom_split_correct. Qed.
+
+Theorem C16_custom_plan_total : forall (i : nat) maxd total nc cap buffer fee (orc : oracle),
+  In i (seq 0 20) -> zatoshi (10 ^ Z.of_nat i) -> zatoshi maxd ->
+  zatoshi total -> zatoshi buffer -> zatoshi fee -> 0 <= cap ->
+  exists p, plan (mkStrategy cap maxd (10 ^ Z.of_nat i) buffer) total nc fee orc = Ok p.
+Proof. exact custom_plan_total. Qed.
+
+Theorem C16_custom_crossings : forall (i : nat) maxd total nc cap buffer fee (orc : oracle),
+  In i (seq 0 20) -> zatoshi (10 ^ Z.of_nat i) -> zatoshi maxd ->
+  zatoshi total -> zatoshi buffer -> zatoshi fee -> 0 <= cap ->
+  forall p, plan (mkStrategy cap maxd (10 ^ Z.of_nat i) buffer) total nc fee orc = Ok p ->
+  Forall (fun s => OneTwoFive s /\ 10 ^ Z.of_nat i <= s <= maxd) (p_cross p)
+  /\ nonincreasing (p_cross p) = true
+  /\ Z.of_nat (length (p_cross p)) <= cap
+  /\ Prefix (p_cross p) (split_of (series_of (10 ^ Z.of_nat i) maxd) (Z.to_nat cap) total buffer fee (nc =? 1)).
+Proof. exact custom_crossings. Qed.
+
+Theorem C16_custom_conservation : forall (i : nat) maxd total nc cap buffer fee (orc : oracle),
+  In i (seq 0 20) -> zatoshi (10 ^ Z.of_nat i) -> zatoshi maxd ->
+  zatoshi total -> zatoshi buffer -> zatoshi fee -> 0 <= cap ->
+  forall p, plan (mkStrategy cap maxd (10 ^ Z.of_nat i) buffer) total nc fee orc = Ok p ->
+  p_out p = map (fun c => c + buffer) (p_cross p)
+  /\ sumZ (p_out p) + p_fees p + optZ (p_change p) = total
+  /\ p_migr p = sumZ (p_cross p) /\ p_total p = total /\ p_buf p = buffer
+  /\ 0 <= p_fees p /\ (forall c, p_change p = Some c -> 0 < c).
+Proof. exact custom_conservation. Qed.
+
+Theorem C16_custom_fees_exact : forall (i : nat) maxd total nc cap buffer fee (orc : oracle),
+  In i (seq 0 20) -> zatoshi (10 ^ Z.of_nat i) -> zatoshi maxd ->
+  zatoshi total -> zatoshi buffer -> zatoshi fee -> 0 <= cap ->
+  forall p, plan (mkStrategy cap maxd (10 ^ Z.of_nat i) buffer) total nc fee orc = Ok p ->
+  (p_cross p = [] -> p_fees p = 0)
+  /\ (p_cross p <> [] ->
+      exists a, orc (Nat.pred (Z.to_nat (p_calls p))) (p_out p) = Some a /\ p_fees p = Z.of_N a * fee).
+Proof. exact custom_fees. Qed.
+
+Theorem C16_custom_residual_small : forall (i : nat) maxd total nc cap buffer fee (orc : oracle),
+  In i (seq 0 20) -> zatoshi (10 ^ Z.of_nat i) -> zatoshi maxd ->
+  zatoshi total -> zatoshi buffer -> zatoshi fee -> 0 <= cap ->
+  forall p a, plan (mkStrategy cap maxd (10 ^ Z.of_nat i) buffer) total nc fee orc = Ok p ->
+  orc O (map (fun c => c + buffer)
+           (split_of (series_of (10 ^ Z.of_nat i) maxd) (Z.to_nat cap) total buffer fee (nc =? 1))) = Some a ->
+  Z.of_N a = assumed_of (series_of (10 ^ Z.of_nat i) maxd) (Z.to_nat cap) total buffer fee (nc =? 1) ->
+  p_cross p = split_of (series_of (10 ^ Z.of_nat i) maxd) (Z.to_nat cap) total buffer fee (nc =? 1)
+  /\ (10 ^ Z.of_nat i <= maxd ->
+      (length (split_of (series_of (10 ^ Z.of_nat i) maxd) (Z.to_nat cap) total buffer fee (nc =? 1)%Z) < Z.to_nat cap)%nat ->
+      optZ (p_change p) < 10 ^ Z.of_nat i + buffer + fee).
+Proof. exact custom_residual. Qed.
+
 (** Bridge: where the implementation agrees with the model, its outcome satisfies the property
     checker (all clauses of [plan_ok], the closed forms of the two zip318 functions, the stored-
-    parts validation), for every oracle of the family; and an [engine::plan_migration_with]
+    parts validation, the same clauses under caller-chosen bounds), for every oracle of the family; and an [engine::plan_migration_with]
     outcome that agrees with the model under SOME oracle (the one refusing every layout but the
     kept one) satisfies every oracle-free clause, reserves exactly the real layout's transaction
     count times the fee, and reports NothingToMigrate / UnfundableSplit exactly when the canonical
